@@ -31,8 +31,8 @@ SNext ==
     \/ Boot /\ A("Boot") /\ Rec([a |-> "Boot"])
     \/ Restart /\ A("Restart") /\ Rec([a |-> "Restart"])
     \/ \E k \in retry : RetryFire(k) /\ A("RetryFire") /\ Rec([a |-> "RetryFire", k |-> Key(k)])
-    \/ \E k \in wq : SyncBegin(k) /\ A("SyncBegin") /\ Rec([a |-> "SyncBegin", k |-> Key(k)])
-    \/ \E f \in {"ok", "error"} : Step(f) /\ A("Step") /\ Rec([a |-> "Step", f |-> f])
+    \/ \E k \in wq, w \in Workers : SyncBegin(k, w) /\ A("SyncBegin") /\ Rec([a |-> "SyncBegin", k |-> Key(k), i |-> w])
+    \/ \E f \in {"ok", "error"}, w \in Workers : Step(f, w) /\ A("Step") /\ Rec([a |-> "Step", f |-> f, i |-> w])
 SSpec == SInit /\ [][SNext]_svars
 EmitDone == Len(sched) < D \/ PrintT(<<"SCHED", ToJson(sched)>>)
 ====
